@@ -18,6 +18,7 @@ func NewInterfaceRegistry() types.InterfaceRegistry {
 			ValidatorAddressCodec: address.Bech32Codec{
 				Bech32Prefix: sdk.GetConfig().GetBech32ValidatorAddrPrefix(),
 			},
+			CustomGetSigners: verifCustomGetSigners(),
 		},
 	})
 	if err != nil {
